@@ -1,93 +1,11 @@
 import TracklibVerif.Lemmas.GraphAStar
-/-! The textbook A* (`forwardFix`, `Model/GraphAStar.lean`: the label is `g`, the queue priority `g + h` — the repair
-proposed for `run_routing_forward`'s A* branch) is exact for a consistent heuristic: `h u ≤ w + h v` along every
-permitted arc. Weights in a linearly ordered cancellative commutative monoid (`ℕ ℤ ℚ ℝ`). -/
+/-! The A* branch of `run_routing_forward` as it is after fix c78e3ab (`forwardH`, `Model/GraphAStar.lean`: the label is
+`g`, the queue priority `g + h`) is exact for a consistent heuristic — `h u ≤ w + h v` along every permitted arc —: without
+and with a cut-off, for the value returned and for every `output_dict` entry. Weights in a linearly ordered cancellative
+commutative monoid (`ℕ ℤ ℚ ℝ`). (The file name dates from the time when this loop was the proposed repair.) -/
 set_option linter.unusedSectionVars false
 namespace TV.Graph
 variable {W : Type} [AddCommMonoid W] [LinearOrder W] [IsOrderedCancelAddMonoid W]
-
-theorem popMinKey_spec (h : Nat → W) (st : St W) (k : Nat) :
-    (popMinKey h st k = none → ∀ v, v < k → st.vis v = false → st.d v = none) ∧
-    (∀ u x, popMinKey h st k = some (u, x) → u < k ∧ st.vis u = false ∧ st.d u = some x ∧
-        ∀ v y, v < k → st.vis v = false → st.d v = some y → x + h u ≤ y + h v) := by
-  induction k with
-  | zero => exact ⟨fun _ v hv => by omega, fun u x hq => by simp [popMinKey] at hq⟩
-  | succ k ih =>
-    obtain ⟨ih1, ih2⟩ := ih
-    unfold popMinKey
-    by_cases hv : st.vis k = true
-    · simp only [hv, if_true]
-      constructor
-      · intro hq v hvk hvis
-        rcases Nat.lt_succ_iff_lt_or_eq.mp hvk with h' | h'
-        · exact ih1 hq v h' hvis
-        · subst h'; rw [hv] at hvis; cases hvis
-      · intro u x hq
-        obtain ⟨a, b, c, d⟩ := ih2 u x hq
-        refine ⟨by omega, b, c, ?_⟩
-        intro v y hvk hvis hd
-        rcases Nat.lt_succ_iff_lt_or_eq.mp hvk with h' | h'
-        · exact d v y h' hvis hd
-        · subst h'; rw [hv] at hvis; cases hvis
-    · have hv' : st.vis k = false := by cases hq : st.vis k <;> simp_all
-      simp only [hv', Bool.false_eq_true, if_false]
-      cases hd : st.d k with
-      | none =>
-        simp only []
-        constructor
-        · intro hq v hvk hvis
-          rcases Nat.lt_succ_iff_lt_or_eq.mp hvk with h' | h'
-          · exact ih1 hq v h' hvis
-          · subst h'; exact hd
-        · intro u x hq
-          obtain ⟨a, b, c, d⟩ := ih2 u x hq
-          refine ⟨by omega, b, c, ?_⟩
-          intro v y hvk hvis hdv
-          rcases Nat.lt_succ_iff_lt_or_eq.mp hvk with h' | h'
-          · exact d v y h' hvis hdv
-          · subst h'; rw [hd] at hdv; cases hdv
-      | some xk =>
-        simp only []
-        cases hb : popMinKey h st k with
-        | none =>
-          simp only []
-          constructor
-          · intro hq; cases hq
-          · intro u x hq
-            simp only [Option.some.injEq, Prod.mk.injEq] at hq
-            obtain ⟨rfl, rfl⟩ := hq
-            refine ⟨by omega, hv', hd, ?_⟩
-            intro v y hvk hvis hdv
-            rcases Nat.lt_succ_iff_lt_or_eq.mp hvk with h' | h'
-            · have := ih1 hb v h' hvis; rw [this] at hdv; cases hdv
-            · subst h'; rw [hd] at hdv; cases hdv; exact le_refl _
-        | some p =>
-          obtain ⟨ub, yb⟩ := p
-          obtain ⟨a, b, c, d⟩ := ih2 ub yb hb
-          simp only []
-          by_cases hlt : xk + h k < yb + h ub
-          · simp only [hlt, if_true]
-            constructor
-            · intro hq; cases hq
-            · intro u x hq
-              simp only [Option.some.injEq, Prod.mk.injEq] at hq
-              obtain ⟨rfl, rfl⟩ := hq
-              refine ⟨by omega, hv', hd, ?_⟩
-              intro v y hvk hvis hdv
-              rcases Nat.lt_succ_iff_lt_or_eq.mp hvk with h' | h'
-              · exact le_trans (le_of_lt hlt) (d v y h' hvis hdv)
-              · subst h'; rw [hd] at hdv; cases hdv; exact le_refl _
-          · simp only [hlt, if_false]
-            constructor
-            · intro hq; cases hq
-            · intro u x hq
-              simp only [Option.some.injEq, Prod.mk.injEq] at hq
-              obtain ⟨rfl, rfl⟩ := hq
-              refine ⟨by omega, b, c, ?_⟩
-              intro v y hvk hvis hdv
-              rcases Nat.lt_succ_iff_lt_or_eq.mp hvk with h' | h'
-              · exact d v y h' hvis hdv
-              · subst h'; rw [hd] at hdv; cases hdv; exact not_lt.mp hlt
 
 /-- the heuristic is consistent: `h u ≤ w + h v` along every permitted arc -/
 def Consistent (net : Net W) (h : Nat → W) : Prop := ∀ u v w, Arc net u v w → h u ≤ w + h v
@@ -231,12 +149,12 @@ theorem invF_cover (net : Net W) (h : Nat → W) (hc : Consistent net h) (s : Na
 
 /-- the textbook A* with a consistent heuristic is exact: `shortest_distance(s, t)` is the minimum weight over the
 permitted walks, the sentinel iff there is none -/
-theorem shortestDistanceFix_spec (net : Net W) (hnet : WFNet net) (h : Nat → W) (hc : Consistent net h) (s t : Nat)
+theorem shortestDistanceH_spec (net : Net W) (hnet : WFNet net) (h : Nat → W) (hc : Consistent net h) (s t : Nat)
     (hs : s < net.n) :
-    (∀ y, shortestDistanceFix net h s t none = some y ↔ IsDist net s t y) ∧
-    (shortestDistanceFix net h s t none = none ↔ ¬ Reachable net s t) := by
-  unfold shortestDistanceFix
-  rw [forwardFix_eq_loopG]
+    (∀ y, shortestDistanceH net h s t none = some y ↔ IsDist net s t y) ∧
+    (shortestDistanceH net h s t none = none ↔ ¬ Reachable net s t) := by
+  unfold shortestDistanceH runForwardH
+  rw [forwardH_eq_loopG]
   have hQ : ∀ st u du, InvF net h s st → popMinKey h st net.n = some (u, du) → InvF net h s (settle net st u du) :=
     fun st u du hi hp => settle_invF net hnet h hc s st hi u du hp
   have hinv := loopG_preserves _ _ (InvF net h s) hQ (some t) none net.n (St.init s) [] (invF_init net h s hs)
@@ -269,6 +187,104 @@ theorem shortestDistanceFix_spec (net : Net W) (hnet : WFNet net) (h : Nat → W
   · intro hn ⟨c, hw⟩
     obtain ⟨y', hy', _⟩ := hlow c hw
     rw [hn] at hy'; cases hy'
+  · intro hn
+    cases hd : r.d t with
+    | none => rfl
+    | some y => exact absurd ⟨y, hinv.j3 t y hd⟩ hn
+
+/-- under the invariants, the label of a settled (`visite`) node is its true distance — at any moment of any search -/
+theorem invF_settled_isDist (net : Net W) (h : Nat → W) (hc : Consistent net h) (s : Nat) (st : St W)
+    (hinv : InvF net h s st) (u : Nat) (x : W) (hv : st.vis u = true) (hd : st.d u = some x) : IsDist net s u x := by
+  refine ⟨hinv.j3 u x hd, ?_⟩
+  intro c hw
+  obtain ⟨z, y, hz, hle, hcase⟩ := invF_cover net h hc s st hinv u c hw
+  rcases hcase with hzv | hzu
+  · exact le_of_add_le_add_right (le_trans (hinv.j4 u x hv hd z y hzv hz) hle)
+  · subst hzu; rw [hd] at hz; cases hz; exact le_of_add_le_add_right hle
+
+theorem forwardH_invF (net : Net W) (hnet : WFNet net) (h : Nat → W) (hc : Consistent net h) (s : Nat) (hs : s < net.n)
+    (tgt : Option Nat) (cut : Option W) : InvF net h s (runForwardH net h s tgt cut).1 := by
+  unfold runForwardH
+  rw [forwardH_eq_loopG]
+  exact loopG_preserves _ _ (InvF net h s) (fun st u du hi hp => settle_invF net hnet h hc s st hi u du hp) tgt cut
+    net.n (St.init s) [] (invF_init net h s hs)
+
+/-- every entry an A* search with a consistent heuristic writes to `output_dict` — whatever the target and the cut-off —
+is the true distance of its key and does not exceed the cut-off; the entries are exactly the nodes the search marked
+`visite` (whose labels are therefore true distances) -/
+theorem runForwardH_entries (net : Net W) (hnet : WFNet net) (h : Nat → W) (hc : Consistent net h) (s : Nat)
+    (hs : s < net.n) (tgt : Option Nat) (cut : Option W) :
+    (∀ u y, (u, y) ∈ (runForwardH net h s tgt cut).2 → IsDist net s u y ∧ Within cut y) ∧
+    (∀ u, (runForwardH net h s tgt cut).1.vis u = true ↔ ∃ y, (u, y) ∈ (runForwardH net h s tgt cut).2) ∧
+    (∀ u y, (runForwardH net h s tgt cut).1.vis u = true → (runForwardH net h s tgt cut).1.d u = some y → IsDist net s u y) := by
+  have hinv := forwardH_invF net hnet h hc s hs tgt cut
+  have hrec := loopG_rec (fun st => popMinKey h st net.n) (settle net)
+    (fun st u du hp => (popKey_facts hp).2.2)
+    (fun st u du z => (settle_spec net st u du).1 z)
+    (fun st u du z hz => (settle_spec net st u du).2.1 z hz)
+    tgt cut net.n (St.init s) []
+    (by intro u y; simp [St.init]) (by intro u y hq; simp [St.init] at hq)
+  unfold runForwardH at hinv ⊢
+  rw [forwardH_eq_loopG] at hinv ⊢
+  obtain ⟨r1, r2⟩ := hrec
+  refine ⟨?_, ?_, ?_⟩
+  · intro u y hm
+    obtain ⟨a, b⟩ := (r1 u y).1 hm
+    exact ⟨invF_settled_isDist net h hc s _ hinv u y a b, r2 u y a b⟩
+  · intro u
+    constructor
+    · intro hv
+      obtain ⟨x, hx⟩ := hinv.j5 u hv
+      exact ⟨x, (r1 u x).2 ⟨hv, hx⟩⟩
+    · rintro ⟨y, hm⟩
+      exact ((r1 u y).1 hm).1
+  · intro u y a b
+    exact invF_settled_isDist net h hc s _ hinv u y a b
+
+/-- `shortest_distance(s, t, cut)` in A* mode with a consistent heuristic that is smallest at the target (`h t ≤ h v`:
+`h t = 0 ≤ h v` for the code's `astar_wgt × distance to t`): the true distance whenever it does not exceed the cut-off, the
+sentinel whenever `t` is unreachable. The stop test `pere.poids > cut` fires on a node `u` of minimal priority with
+`g u > cut`; every unsettled node `z` on a shortest walk to `t` has `g z + h z ≤ dist + h t ≤ cut + h u < g u + h u`, so no such
+node is left: `t` already carries its true distance. -/
+theorem shortestDistanceH_cut (net : Net W) (hnet : WFNet net) (h : Nat → W) (hc : Consistent net h) (s t : Nat)
+    (hs : s < net.n) (hmin : ∀ v, h t ≤ h v) (cut : Option W) :
+    (∀ y, IsDist net s t y → Within cut y → shortestDistanceH net h s t cut = some y) ∧
+    (¬ Reachable net s t → shortestDistanceH net h s t cut = none) := by
+  have hinv := forwardH_invF net hnet h hc s hs (some t) cut
+  unfold shortestDistanceH
+  unfold runForwardH at hinv ⊢
+  rw [forwardH_eq_loopG] at hinv ⊢
+  have hend := loopG_stop net.n (fun st => popMinKey h st net.n) (settle net)
+    (fun st u du hp => ⟨(popKey_facts hp).1, (popKey_facts hp).2.1⟩)
+    (fun st u du z => (settle_spec net st u du).1 z)
+    (some t) cut net.n (St.init s) [] (cnt_le _ _)
+  generalize (loopG (fun st => popMinKey h st net.n) (settle net) (some t) cut net.n (St.init s) []).1 = r at hinv hend
+  have hlow : ∀ c, Walk net s t c → Within cut c → ∃ y, r.d t = some y ∧ y ≤ c := by
+    intro c hw hwc
+    obtain ⟨z, y, hz, hle, hcase⟩ := invF_cover net h hc s r hinv t c hw
+    rcases hcase with hzv | hzt
+    · rcases hend with ⟨u, du, hp, hstop⟩ | hp | hc0
+      · obtain ⟨_, _, hud, hm⟩ := (popMinKey_spec h r net.n).2 u du hp
+        have hprio : du + h u ≤ c + h t := le_trans (hm z y (hinv.j6 z y hz) hzv hz) hle
+        by_cases hut : u = t
+        · subst hut; exact ⟨du, hud, le_of_add_le_add_right hprio⟩
+        · exfalso
+          simp only [stops, hut, decide_false, Bool.or_false] at hstop
+          cases hcut : cut with
+          | none => rw [hcut] at hstop; simp at hstop
+          | some cc =>
+            rw [hcut] at hstop
+            simp only [decide_eq_true_eq] at hstop
+            have h1 : c ≤ cc := hwc cc hcut
+            have h2 : du + h u ≤ c + h u := le_trans hprio (add_le_add_right (hmin u) c)
+            exact absurd (lt_of_le_of_lt h1 hstop) (not_lt.mpr (le_of_add_le_add_right h2))
+      · rw [(popMinKey_spec h r net.n).1 hp z (hinv.j6 z y hz) hzv] at hz; cases hz
+      · rw [cnt_zero_all r net.n hc0 z (hinv.j6 z y hz)] at hzv; cases hzv
+    · subst hzt; exact ⟨y, hz, le_of_add_le_add_right hle⟩
+  constructor
+  · intro y ⟨hw, hmn⟩ hwy
+    obtain ⟨y', hy', hle⟩ := hlow y hw hwy
+    rw [hy']; congr 1; exact le_antisymm hle (hmn y' (hinv.j3 t y' hy'))
   · intro hn
     cases hd : r.d t with
     | none => rfl
